@@ -112,17 +112,28 @@ theorem fallback_pushes (s : MSt) (h : Str) (hstruct : isStructural h = false) (
   simp only [Bool.or_eq_false_iff] at hstruct
   obtain ⟨⟨⟨⟨h1, h2⟩, h3⟩, h4⟩, h5⟩ := hstruct
   unfold dispatchStart
-  simp only [h1, h2, h3, h4, h5, Bool.false_eq_true, ↓reduceIte, Bool.or_self, hno, List.isEmpty_nil]
+  simp only [h1, h2, h3, h4, h5, Bool.false_eq_true, ↓reduceIte, Bool.or_self, hno, dropDecls, List.filter_nil, List.isEmpty_nil]
 
-/-- **Fallback, with attributes**: the attribute dict is stored under the handler name in the current
-context and nothing is pushed -/
-theorem fallback_stores_attrs (s : MSt) (h : Str) (attrsD : List (Str × Str)) (hne : attrsD ≠ [])
-    (hstruct : isStructural h = false) (hno : hasStart h = false) :
-    dispatchStart s h attrsD = .ok (setContext s h (.d attrsD)) := by
+/-- namespace declarations delivered as attributes (loose back end) do not turn the text form into
+the attribute-dict form -/
+theorem fallback_ignores_declarations (s : MSt) (h : Str) (attrsD : List (Str × Str))
+    (hdecl : dropDecls attrsD = []) (hstruct : isStructural h = false) (hno : hasStart h = false) :
+    dispatchStart s h attrsD = .ok (push s h true) := by
   unfold isStructural at hstruct
   simp only [Bool.or_eq_false_iff] at hstruct
   obtain ⟨⟨⟨⟨h1, h2⟩, h3⟩, h4⟩, h5⟩ := hstruct
-  have he : attrsD.isEmpty = false := by cases attrsD <;> simp_all
+  unfold dispatchStart
+  simp only [h1, h2, h3, h4, h5, Bool.false_eq_true, ↓reduceIte, Bool.or_self, hno, hdecl, List.isEmpty_nil]
+
+/-- **Fallback, with attributes**: the attribute dict is stored under the handler name in the current
+context and nothing is pushed -/
+theorem fallback_stores_attrs (s : MSt) (h : Str) (attrsD : List (Str × Str)) (hne : dropDecls attrsD ≠ [])
+    (hstruct : isStructural h = false) (hno : hasStart h = false) :
+    dispatchStart s h attrsD = .ok (setContext s h (.d (dropDecls attrsD))) := by
+  unfold isStructural at hstruct
+  simp only [Bool.or_eq_false_iff] at hstruct
+  obtain ⟨⟨⟨⟨h1, h2⟩, h3⟩, h4⟩, h5⟩ := hstruct
+  have he : (dropDecls attrsD).isEmpty = false := by cases hd : dropDecls attrsD <;> simp_all
   unfold dispatchStart
   simp only [h1, h2, h3, h4, h5, Bool.false_eq_true, ↓reduceIte, Bool.or_self, hno, he]
 
